@@ -665,12 +665,8 @@ func (m *Model) Check(e, res string) []common.Violation {
 					cause := "never-received"
 					if m.seen[n][it] {
 						cause = "received-but-not-admitted"
-					} else {
-						for _, nb := range m.neighbours(n) {
-							if m.orphanAdmitted[nb][it] {
-								cause = "upstream-relay-admitted-through-orphan-path"
-							}
-						}
+					} else if m.starvedByOrphanPath(n, it) {
+						cause = "upstream-relay-admitted-through-orphan-path"
 					}
 					out = append(out, common.Violation{Property: prop, Predicate: prop + ".everyone", Key: prop + ".not-reached/" + cause + "/" + m.kind(it),
 						What: fmt.Sprintf("at quiescence node %s does not hold %s (origin %s)", n, m.itemName(it), m.Cfg.Origin)})
@@ -699,4 +695,29 @@ func (m *Model) Describe() string {
 		out = append(out, fmt.Sprintf("node %s seen=%v expired=%v", n, seen, m.expired[n]))
 	}
 	return strings.Join(out, "\n")
+}
+
+// starvedByOrphanPath reports whether node n never received the item because, walking upstream through nodes that
+// never received it either, one reaches a relay that admitted it through the orphan path (missing-parent fetch or
+// retry), the path on which the code does not forward (the listed known finding of C11).
+func (m *Model) starvedByOrphanPath(n string, it [32]byte) bool {
+	visited := map[string]bool{n: true}
+	stack := []string{n}
+	for len(stack) > 0 {
+		cur := stack[len(stack)-1]
+		stack = stack[:len(stack)-1]
+		for _, nb := range m.neighbours(cur) {
+			if visited[nb] || nb == m.Cfg.Adversary {
+				continue
+			}
+			visited[nb] = true
+			if m.orphanAdmitted[nb][it] {
+				return true
+			}
+			if !m.holds(nb, it) && !m.seen[nb][it] {
+				stack = append(stack, nb)
+			}
+		}
+	}
+	return false
 }
